@@ -60,6 +60,9 @@ class SliceView:
         self.rows = [self._elem(e, self.row_subs) for e in self.row_order]
         self.cols = [self._elem(e, self.col_subs) for e in self.col_order]
         self.weighted = L.spec.weight is not None
+        w = L.spec.weight
+        # weights that are not multiples of 1/8: sums depend on their order in the last bits
+        self.inexact = w is not None and bool(np.any((np.asarray(w, dtype=float) * 8) % 1 != 0))
         self.valid_count_mode = o.xok is not None or L.spec.numarr is not None
         self.row_type, self.col_type = o.typestr(self.R), o.typestr(self.C)
         self.row_role, self.col_role = o.facets[self.R][0], o.facets[self.C][0]
